@@ -602,6 +602,9 @@ class ExprMixin(EngineBase):
                     else:
                         yield st, Raised(ExcVal("IndexError"))
                     return
+                if isinstance(i, int) and 0 <= i < len(items) and not any(isinstance(x, Seg) for x in items[: i + 1]):
+                    yield st, items[i]      # a concrete prefix before the opaque rest
+                    return
                 raise Unsupported("symbolic index into list", node)
             model = self.reg.models.get(o.kind)
             if model is not None and hasattr(model, "getitem"):
